@@ -92,6 +92,7 @@ func main() {
 			raw = b
 		}
 		if d.replayRaw != nil {
+			setReplayVariant(cfg.Var)
 			res, err := d.replayRaw(raw, replayOut)
 			if err != nil {
 				fmt.Fprintln(os.Stderr, err)
@@ -153,3 +154,6 @@ func b2i(b bool) int {
 	}
 	return 0
 }
+
+// hook for drivers whose replay output depends on the -var flag (set in vshim builds)
+var setReplayVariant = func(v string) {}
